@@ -466,9 +466,11 @@ class Ctx:
         cov = dict(self.coverage)
         if not cov["samples"]:
             cov["samples"] = ["(no correspondence cases in this run)"]
-        if cov["obligations"] == 0:
-            # keep schema-valid for proof level via the generic fallback
-            cov.pop("obligations"); cov.pop("discharged")
+        if cov["obligations"] == 0 or cov["discharged"] == 0:
+            # nothing discharged in this run (no obligations, or a broken proof): the proof-level keys
+            # are withheld and the exploration-style counts stand alone; the numbers are kept visible
+            cov["obligations_attempted"] = cov.pop("obligations")
+            cov["obligations_discharged"] = cov.pop("discharged")
         ev = {
             "property_id": self.pid,
             "tier": self.tier,
